@@ -6,7 +6,7 @@ from vlib import gen, lib, tablecheck
 from vlib.oracle import Ref, positions, shortlex_key, longlex_key
 
 PROPERTY = 'C06'
-RULE = ('cases are context tables (plus Hypothesis tables wider than a machine word: 1-6 x 60-140 and transposed) (exhaustive n*m <= 12 quick / <= 16 + 4x5, 5x4 + multisets thorough; Hypothesis '
+RULE = ('cases are context tables (plus Hypothesis tables wider than a machine word: 1-6 x 60-320 and transposed) (exhaustive n*m <= 12 quick / <= 16 + 4x5, 5x4 + multisets thorough; Hypothesis '
         'families beyond) whose object labels are a seed-derived / drawn permutation, so label order differs from '
         'positional order. Oracle on three lattices per table (computed; reloaded by fromdict(todict()); reloaded '
         'with raw=True from a permuted serialisation, as dict and as JSON text): iteration sorted by (len(extent), object positions), '
